@@ -20,7 +20,16 @@ Variants(k) ==
          [name |-> "ssleay-short-d", der |-> ECPriv(short, k.oid, k.point, TRUE, TRUE)],
          [name |-> "spki-pem", der |-> PEM(k.publabel, SPKI(k.oid, k.point))],
          [name |-> "ssleay-pem", der |-> PEM(k.eclabel, inner(TRUE, TRUE))],
-         [name |-> "pkcs8-pem", der |-> PEM(k.p8label, PKCS8(1, OidEcPublicKey, k.oid, inner(TRUE, TRUE)))] >>
+         [name |-> "pkcs8-pem", der |-> PEM(k.p8label, PKCS8(1, OidEcPublicKey, k.oid, inner(TRUE, TRUE)))],
+         \* leading zero bytes of the scalar stripped inside PKCS#8 as well
+         [name |-> "pkcs8-v1-short-d", der |-> PKCS8(1, OidEcPublicKey, k.oid, ECPriv(short, k.oid, k.point, TRUE, TRUE))],
+         [name |-> "pkcs8-v0-short-d-noparams-nopub", der |-> PKCS8(0, OidEcPublicKey, k.oid, ECPriv(short, k.oid, k.point, FALSE, FALSE))],
+         \* PEM armour as other writers produce it: CRLF line ends, 76-character lines, no final line end
+         [name |-> "spki-crlf-pem", der |-> PEMWith(k.publabel, SPKI(k.oid, k.point), 64, <<13, 10>>, <<13, 10>>)],
+         [name |-> "ssleay-crlf-pem", der |-> PEMWith(k.eclabel, inner(TRUE, TRUE), 64, <<13, 10>>, <<13, 10>>)],
+         [name |-> "pkcs8-crlf-pem", der |-> PEMWith(k.p8label, PKCS8(1, OidEcPublicKey, k.oid, inner(TRUE, TRUE)), 64, <<13, 10>>, <<13, 10>>)],
+         [name |-> "pkcs8-76col-noeol-pem", der |-> PEMWith(k.p8label, PKCS8(1, OidEcPublicKey, k.oid, inner(TRUE, TRUE)), 76, <<10>>, <<>>)],
+         [name |-> "spki-76col-noeol-pem", der |-> PEMWith(k.publabel, SPKI(k.oid, k.point), 76, <<10>>, <<>>)] >>
 
 Out == [j \in 1..Len(Req) |-> Variants(Req[j])]
 VARIABLE done
